@@ -14,7 +14,7 @@ namespace hz {
 static const char *const class_names[] = {"future", "mutex", "queue", "limited_queue", "thread_pool", "scheduler", "publisher", "shared_future", "reusable_storage_mtsafe", "signal"};
 static const char *const counter_names[] = {"c0", "c1", "c2", "c3", "c4", "c5"};
 static const Info I = {
-    "C03", 2, 70, 200000, true, false,
+    "C03", 2, 71, 200000, true, false,
     "the first program byte selects a multi-threaded scenario {future: 1..2 resolvers x 1..3 waiters incl. polling ready() and late subscribers; mutex: 2..4 contenders; queue / limited_queue: producer and consumer threads; "
     "thread_pool: submissions against stop(); scheduler: thread and thread-pool mode with sleepers, cancellers, interval and destruction; publisher: publisher thread against subscriber threads; shared_future: resolver against copying/awaiting/dropping workers; "
     "reusable_storage_mtsafe: two threads creating and finishing coroutines; signal: histories with listeners subscribing from another thread}; the rest of the program is that scenario's generated program; executed under ThreadSanitizer (clang++, halt on first report) on the virtual runtime, whose baton is invisible to TSan "
